@@ -124,6 +124,8 @@ fn set_mtime_now(path: &str) {
     }
 }
 
+static mut BG_PIDS: Vec<i32> = Vec::new();
+
 struct Ctx {
     arg1: String,
     arg3: String,
@@ -135,6 +137,17 @@ struct Ctx {
 
 impl Ctx {
     fn finish(&self, rc: i32) -> ! {
+        // background writers belong to the script: wait for them first
+        #[allow(static_mut_refs)]
+        for pid in unsafe { BG_PIDS.drain(..) } {
+            let mut st = 0;
+            loop {
+                let r = unsafe { libc::waitpid(pid, &mut st, 0) };
+                if r == pid || (r < 0 && std::io::Error::last_os_error().raw_os_error() != Some(libc::EINTR)) {
+                    break;
+                }
+            }
+        }
         event(&format!("do-end\t{}\t{}", self.target_event, rc));
         unsafe { libc::exit(rc) }
     }
@@ -406,6 +419,25 @@ fn main() {
             Stmt::Out { mode, pad } => {
                 cx.mode = mode.clone();
                 cx.pad = *pad;
+            }
+            Stmt::ErrBg { n, tag } => {
+                let pid = unsafe { libc::fork() };
+                if pid == 0 {
+                    for k in 0..*n {
+                        let line = format!("{} bg{}\n", tag, k);
+                        write_all(2, line.as_bytes(), 1 << 20);
+                        let ts = libc::timespec { tv_sec: 0, tv_nsec: 1_000_000 };
+                        unsafe {
+                            libc::nanosleep(&ts, std::ptr::null_mut());
+                        }
+                    }
+                    unsafe { libc::_exit(0) }
+                } else if pid > 0 {
+                    #[allow(static_mut_refs)]
+                    unsafe {
+                        BG_PIDS.push(pid);
+                    }
+                }
             }
             Stmt::MkDirs => {
                 // like `mkdir -p`: one mkdir per missing component (each a
